@@ -720,10 +720,34 @@ def _record_owner(ctx):
                              'example, found %d)' % inside)
 
 
+def _identity_with_placement(ctx):
+    """C09.2: the change list of a cycle is (server, expiry) before and
+    after - an identity is published again only when one of them changed.
+    So nothing may change the identity of an instance that can end the cycle
+    where it was: a victim of the eviction scan is recorded for restore (same
+    server, same expiry) and must keep its identity meanwhile."""
+    from .sched_model import PlacementLoop
+    loop = PlacementLoop(ctx)
+    graph, func = loop.graph, loop.func
+    scans = [n for n in loop.body() if n.kind == 'for' and n is not loop.head]
+    ctx.require(scans, 'victim scan in the placement loop')
+    for scan in scans:
+        victim = sorted(N.for_targets(scan))[0]
+        released = [n for n in K.loop_body_nodes(scan) if any(
+            K.is_meth(c, 'release_identity') and K.recv_text(c) == victim
+            for c in C.node_calls(n))]
+        ctx.ob('C09.2', func, released[0] if released else scan,
+               not released,
+               'a victim recorded for restore keeps its identity (it may '
+               'return to the same server with the same expiry, which '
+               'publishes nothing)', construct='victim identity kept')
+
+
 def check(ctx):
     master = ctx.index.get_class(K.MASTER, 'Master')
     if ctx.tier == 'thorough':
         _record_owner(ctx)
+    _identity_with_placement(ctx)
     _startup(ctx, master)
     _payload(ctx, master)
     _reschedule(ctx, master)
